@@ -43,6 +43,7 @@ type Prog struct {
 	SSAPkgs  map[string]*ssa.Package // by import path
 	AllFuncs map[*ssa.Function]bool
 	CG       *callgraph.Graph // VTA
+	flagDepth int
 	CHA      *callgraph.Graph
 	NFiles   map[string]int
 	factMemo map[*ssa.Function]*factSet
